@@ -1558,6 +1558,25 @@ def merge_fn(toks, opts, sections, fired):
         return out
     bc = match_close(toks, he)
     lps = loops_of(toks, he + 1, bc)
+    # $var<k> in an annotation = the loop variable of for-loop k (when its pattern is a plain identifier): annotations then
+    # survive a renaming of the variable, and a reordering of loops shows up as a failed obligation, not as a compile error
+    def _loopvar(k):
+        li = lps[k - 1]
+        if toks[li].text != "for":
+            raise ExtractError(f"lost anchor: $var{k}: loop {k} is not a for loop")
+        a = next_code(toks, li + 1)
+        b = next_code(toks, a + 1)
+        if toks[a].kind == "ident" and toks[b].kind == "ident" and toks[b].text == "in":
+            return toks[a].text
+        raise ExtractError(f"lost anchor: $var{k}: the pattern of loop {k} is not a plain identifier")
+    for key in list(sections.keys()):
+        if isinstance(sections[key], str) and "$var" in sections[key]:
+            def _sub(m):
+                k = int(m.group(1))
+                if k > len(lps):
+                    raise ExtractError(f"lost anchor: $var{k} but function has {len(lps)} loops")
+                return _loopvar(k)
+            sections[key] = re.sub(r"\$var(\d+)", _sub, sections[key])
     want_n = sections.get("nloops")
     maxk = 0
     for key in sections:
